@@ -125,6 +125,36 @@ def search(ctx, N):
                 ctx.violation('args-value:n=0', 'n = 0 does not return g(x, 3.0, b=5.0)', {'n': n, 'method': method})
 
 
+def few_rows(ctx):
+    """Configurations that leave FEW extrapolated estimates per element (long one-sided rules, high-order central rules): there the outlier
+    penalty decides between neighbouring rows, so any dependence of the selection on how many OTHER elements are present shows.  Every
+    element of a 60-element array is compared bit-for-bit with its evaluation alone (scalar) and inside a 2-element array."""
+    import numdifftools as nd
+    rng = ctx.rng(14)
+    configs = [(m_, n_, o_) for m_ in ('forward', 'backward') for n_ in (3, 4, 5, 6) for o_ in (2, 4)] + [('central', 5, 6), ('central', 6, 6), ('central', 3, 8), ('central', 4, 8)]
+    fsq = {'sqrt1px2': lambda x: np.sqrt(1.0 + x * x), 'rational': FUNCS['rational']}
+    for ci, (method, n, order) in enumerate(configs):
+        fname = sorted(fsq)[ci % 2]
+        f = fsq[fname]
+        x = rng.uniform(0.3, 2.5, size=60)
+        d = nd.Derivative(f, n=n, method=method, order=order, full_output=True)
+        try:
+            v, info = d(x)
+        except Exception:   # noqa  (reported by search / C11)
+            continue
+        for i in range(60):
+            vs, infos = d(float(x[i]))
+            v2, info2 = d(np.array([x[i], x[(i + 7) % 60]]))
+            ctx.count(1, ('few-rows', method, n))
+            if float(vs).hex() != float(v[i]).hex() or float(v2[0]).hex() != float(v[i]).hex():
+                return ctx.violation('scalar-few-rows:%s' % method,
+                                     'Derivative(%s, n=%d, order=%d, method=%r): element %d of a 60-element array is %r, alone it is %r, inside a 2-element array %r' % (
+                                         fname, n, order, method, i, float(v[i]), float(vs), float(v2[0])),
+                                     {'f': fname, 'n': n, 'order': order, 'method': method, 'x': x.tolist(), 'element': i,
+                                      'how': 'd = nd.Derivative(f, n=n, method=method, order=order); d(x)[i] vs d(x[i]) vs d(np.array([x[i], x[(i+7) % 60]]))[0], compared with float.hex'})
+    return False
+
+
 def run(ctx):
     import numdifftools as nd
     proof_stage(ctx, 'Props/C08.v')
@@ -175,6 +205,7 @@ def run(ctx):
     ctx.cov['correspondence_disagreements'] = nbad
     ctx.cov['skipped'] = skipped
     search(ctx, ctx.n(60, 600))
+    few_rows(ctx)
     ctx.assumptions += ['the difference quotients, the rule rows (pinv) and h**n are recorded from the run (stencils are the subject of C05/C06); the model covers everything after them: rule application, Richardson, dea3, outlier penalty, arg-min, gather',
                         'columns containing NaN/inf difference quotients are not compared with the model (counted under skipped) but are exercised by the property-level search']
     return ctx.finish(level='proof', checker_cmd='make -C coq Props/C08.vo + coqc build/cases/C08_*.v',
